@@ -24,6 +24,9 @@ pub enum SOp {
 pub enum Case {
     /// execute(t) for every text in order on ONE calculator
     Purity(Vec<String>),
+    /// the same on a calculator built with a given configuration (reference: a calculator with
+    /// that configuration used once)
+    PurityCfg(Cfg, Vec<String>),
     Sessions(Vec<SOp>),
     /// setter calls and evaluations interleaved on ONE calculator
     Reconf(Vec<ROp>),
@@ -79,8 +82,37 @@ fn nlines(t: &str) -> usize {
     super::c01::segments(t).len()
 }
 
+fn exec_purity(ctx: &mut Ctx, cfg: &Cfg, texts: &[String]) -> Verdict {
+    let shown = if texts.len() > 8 { format!("walk of {} evaluations starting {:?} ...", texts.len(), &texts[..4]) } else { format!("{}{:?}", if *cfg == Cfg::default() { String::new() } else { format!("[{}] ", serde_json::to_string(cfg).unwrap()) }, texts) };
+    let mut v = Verdict { input: shown, class: "history-compared", compared: true, expected: "every observation equals the same text on a calculator used once".into(), ..Default::default() };
+    let refs: Vec<String> = texts.iter().map(|t| fresh_obs_cfg(ctx, cfg, t)).collect();
+    let calc = ctx.fresh(cfg);
+    let mut trace = String::new();
+    for (i, t) in texts.iter().enumerate() {
+        let run = obs::eval(&calc, "en", t);
+        v.evals += nlines(t) as u64;
+        let o = format!("{:?}", run);
+        trace.push_str(&format!("[{}] {} ;; ", i, run.brief()));
+        if o != refs[i] {
+            if let Run::Panic(p) = &run {
+                v.site = Some(p.site.clone());
+            }
+            v.violation = Some(format!("step {}: execute({:?}) differs from the same text on a fresh calculator", i, t));
+            v.expected = refs[i].clone();
+            v.observed = o;
+            return v;
+        }
+    }
+    v.observed = trace;
+    v
+}
+
 fn fresh_obs(ctx: &mut Ctx, text: &str) -> String {
-    let key = format!("fresh|{}", text);
+    fresh_obs_cfg(ctx, &Cfg::default(), text)
+}
+
+fn fresh_obs_cfg(ctx: &mut Ctx, cfg: &Cfg, text: &str) -> String {
+    let key = if *cfg == Cfg::default() { format!("fresh|{}", text) } else { format!("fresh|{}|{}", serde_json::to_string(cfg).unwrap(), text) };
     if let Some(v) = ctx.memo.get(&key) {
         return v.clone();
     }
@@ -88,7 +120,7 @@ fn fresh_obs(ctx: &mut Ctx, text: &str) -> String {
         ctx.memo.insert(key, v.clone());
         return v;
     }
-    let calc = ctx.fresh(&Cfg::default());
+    let calc = ctx.fresh(cfg);
     let r = format!("{:?}", obs::eval(&calc, "en", text));
     crate::runner::shared_put(key.clone(), r.clone());
     ctx.memo.insert(key, r.clone());
@@ -118,6 +150,22 @@ impl Prop for C04 {
                 Some(Case::Purity(ts))
             },
         ));
+        {
+            let dd = tier.pick(3, 4);
+            f.push(Family::new(
+                "colliding-unit-histories",
+                Mode::Full,
+                &format!("a calculator that also carries the user family 'troy-weight' (gr, dwt, oz, lb), whose words 'oz' and 'lb' the built-in imperial weights use too, and the bystander family 'fmt': every sequence of 1..={} execute(t) calls, t in [40 dwt to oz, 48 oz to lb, 2 lb to oz, 5 kg to lb, 24 gr to dwt, 3 oz + 2 lb, 1 stone to lb, 3 qq + 1, 10 km to m]: every observation equals that of the same text on a calculator with the same configuration used once (which family a shared word denotes may depend on the configuration, never on earlier evaluations)", dd),
+                move |ch| {
+                    let n = 1 + ch.choose(dd);
+                    let mut ts = Vec::new();
+                    for _ in 0..n {
+                        ts.push(ch.pick(&["40 dwt to oz", "48 oz to lb", "2 lb to oz", "5 kg to lb", "24 gr to dwt", "3 oz + 2 lb", "1 stone to lb", "3 qq + 1", "10 km to m"]).to_string());
+                    }
+                    Some(Case::PurityCfg(Cfg { troy: true, user_unit: Some((2, true, true)), ..Default::default() }, ts))
+                },
+            ));
+        }
         {
             // every ordered pair of texts of a large pool as neighbours on ONE calculator: a walk
             // visits [a, b] for every b, for the a's of its slice
@@ -317,30 +365,8 @@ impl Prop for C04 {
 
     fn exec(&self, ctx: &mut Ctx, case: &Case) -> Verdict {
         match case {
-            Case::Purity(texts) => {
-                let shown = if texts.len() > 8 { format!("walk of {} evaluations starting {:?} ...", texts.len(), &texts[..4]) } else { format!("{:?}", texts) };
-                let mut v = Verdict { input: shown, class: "history-compared", compared: true, expected: "every observation equals the same text on a calculator used once".into(), ..Default::default() };
-                let refs: Vec<String> = texts.iter().map(|t| fresh_obs(ctx, t)).collect();
-                let calc = ctx.fresh(&Cfg::default());
-                let mut trace = String::new();
-                for (i, t) in texts.iter().enumerate() {
-                    let run = obs::eval(&calc, "en", t);
-                    v.evals += nlines(t) as u64;
-                    let o = format!("{:?}", run);
-                    trace.push_str(&format!("[{}] {} ;; ", i, run.brief()));
-                    if o != refs[i] {
-                        if let Run::Panic(p) = &run {
-                            v.site = Some(p.site.clone());
-                        }
-                        v.violation = Some(format!("step {}: execute({:?}) differs from the same text on a fresh calculator", i, t));
-                        v.expected = refs[i].clone();
-                        v.observed = o;
-                        return v;
-                    }
-                }
-                v.observed = trace;
-                v
-            }
+            Case::Purity(texts) => exec_purity(ctx, &Cfg::default(), texts),
+            Case::PurityCfg(cfg, texts) => exec_purity(ctx, cfg, texts),
             Case::Sessions(ops) => exec_sessions(ctx, ops, None),
             Case::SessionsReach(ops, bound) => exec_sessions(ctx, ops, Some(*bound)),
             Case::ConfigReach(setters) => {
